@@ -369,7 +369,7 @@ def env_triples(H):
         if not getattr(k, "__module__", "").startswith(("passlib.handlers", "libpass")):
             continue
         for attr in list(vars(k)):
-            if (attr in ("from_string", "parse", "to_string", "_get_config", "_calc_checksum", "_norm_hash") or attr.startswith("_parse_")) \
+            if (attr in ("from_string", "parse", "to_string", "_get_config", "_calc_checksum", "_norm_hash", "identify") or attr.startswith("_parse_")) \
                     and (k, attr) not in done:
                 done.add((k, attr))
                 try:
